@@ -16,9 +16,25 @@ theorem C05_len_roundtrip (n : Nat) (hn : Small n) (rest : Bytes) :
 /-- every integer (request ids far beyond today's clock values included) -/
 theorem C05_int_roundtrip (v : Int) : readInt (intEncode v) = some v := readInt_intEncode v
 
-/-- every OID of the domain: later sub-identifiers unbounded, any number of arcs -/
+/-- every OID of the domain: later sub-identifiers unbounded, any number of arcs.  PARTIAL with
+    respect to the property's "all OID lists": the domain excludes arc0 = 2 with arc1 ≥ 40, see
+    `C05_oid_counterexample`. -/
 theorem C05_oid_roundtrip (o : Oid) (h : OidDom o) : ∃ bs, oidEncode o = some bs ∧ readOid bs = some o :=
   readOid_oidEncode o h
+
+/-- the full statement over all legal OIDs (arc0 = 2 allows any arc1, X.660) -/
+def C05_oid_statement : Prop :=
+  ∀ (b : Nat) (rest : List Nat), ∀ bs, oidEncode (2 :: b :: rest) = some bs → readOid bs = some (2 :: b :: rest)
+
+/-- It does not hold: the mirror of x690's `ObjectIdentifier.encode_raw` packs the first two arcs
+    into one *octet*; 2.100.3 is written `b4 03`, which the specification reader (and every BER
+    decoder) takes for the single sub-identifier 6659 = 2.6579.  Known finding of the dependency
+    (C05-x690-oid-second-arc), replayed on the implementation by the suite `second-arc`. -/
+theorem C05_oid_counterexample : ¬ C05_oid_statement := by
+  intro h
+  have := h 100 [3] [180, 3] (by decide)
+  revert this
+  decide
 
 /-- every SET value kind over its full range -/
 theorem C05_value_roundtrip (v : Val) (hv : SetVal v) (bs : Bytes) (he : encodeVal v = some bs)
